@@ -837,6 +837,9 @@ class RefParser:
             self.skip_unknown(1)
 
 
+WORD_ENV = {'E': '', 'V': 'val'}
+
+
 def tokens_from_words(words):
     """C01's layout: tokens joined by one blank; a word is a punctuation token or a string"""
     out = []
@@ -845,6 +848,15 @@ def tokens_from_words(words):
             out.append(Tok(w))
         elif w == '+=':
             out.append(Tok('+'))
+        elif isinstance(w, str) and w.startswith('${') and w.endswith('}'):
+            # an unquoted substitution word: one string token holding the value of the variable, or the default when the variable
+            # is not set at all (WORD_ENV: E is set to the empty string, V to 'val', everything else is unset)
+            inner = w[2:-1]
+            name, _, dflt = inner.partition(':-')
+            v = WORD_ENV.get(name)
+            if v is None:
+                v = dflt
+            out.append(Tok('S', v.encode('latin-1')))
         elif isinstance(w, str) and (w.startswith('#') or w.startswith('//') or w.startswith('/*')):
             out.append(Tok('C', w.strip('#/* \n').encode('latin-1')))     # a comment word (C07 alphabets)
         else:
